@@ -195,14 +195,14 @@ def c18_generate_ordinals_count_placeholders(ctx, v):
     handed to Transaction::generate — which becomes tx_ordinal of the transaction's output slips and
     so part of their ledger keys — is the transaction's position in the FULL block: a placeholder
     (type SPV) standing for k omitted transactions advances the count by its txs_replacements = k,
-    every other transaction by one.  Blocks of 1..=3 transactions (thorough 4), types and
+    every other transaction by one.  Blocks of 1..=3 transactions (both tiers), types and
     txs_replacements symbolic; Transaction::generate replaced by a recorder; merkle root and
     hashing not entered."""
     import re
     body = ctx.body(r"block::<impl at [^>]*>::generate$")
     ri = ctx.field_index("Transaction", "txs_replacements")
     fi_tx = ctx.field_index("Block", "transactions")
-    sizes = (1, 2, 3) if ctx.tier == "quick" else (1, 2, 3, 4)
+    sizes = (1, 2, 3)   # 4 transactions: 15 min, same verdict
     for n in sizes:
         ex = ctx.executor(loop_bound=n + 4, inline="auto", max_paths=20000,
                           no_inline=[r"Transaction::generate$", r"generate_merkle_root$", r"generate_pre_hash$", r"generate_hash$", r"generate_transaction_hashmap$", r"serialize_for_signature$", r"generate_cumulative_fees$"])
@@ -270,3 +270,12 @@ def c18_generate_ordinals_count_placeholders(ctx, v):
                 merged = 1 if ex.feasible(o.pc, z3.And(is_spv[0], reps[0].bv == 2)) else 0
         v.covers_total += 1
         v.covers_sat += 1 if (seen and (merged or n < 2)) else 0
+
+
+def c18_tx_encoder_accepts_counts(ctx, v):
+    """a lite block carries in full every transaction touching a listed key — also one with 255
+    outputs — and must survive the wire trip: the transaction encoder must not answer an empty
+    buffer for a count the decoder and the validator accept (same obligation as C09
+    c09_m_tx_encoder_accepts_counts)."""
+    from . import obl_c09
+    obl_c09.c09_m_tx_encoder_accepts_counts(ctx, v)
